@@ -139,7 +139,8 @@ func (p *MultilineAction) Do(event *pipeline.Event) pipeline.ActionResult {
 
 			if p.cutOffEventByLimit {
 				offset := sizeAfterAppend - p.maxEventSize
-				p.eventBuf = append(p.eventBuf, logFragment[1:logFragmentLen-1-offset]...)
+				end := escapedCutPos(logFragment, logFragmentLen-1-offset)
+				p.eventBuf = append(p.eventBuf, logFragment[1:end]...)
 				p.cutOffEvent = true
 
 				p.logger.Errorf("event chunk will be cut off due to max_event_size, source_name=%s, namespace=%s, pod=%s", event.SourceName, ns, pod)
@@ -222,6 +223,26 @@ func (p *MultilineAction) Do(event *pipeline.Event) pipeline.ActionResult {
 	p.resetLogBuf()
 
 	return pipeline.ActionPass
+}
+
+// escapedCutPos returns the largest position <= end at which the escaped JSON string s (with its quotes)
+// can be cut without splitting an escape sequence (\", \\, \n, \uXXXX ...).
+func escapedCutPos(s string, end int) int {
+	i := 1
+	for i < end {
+		n := 1
+		if s[i] == '\\' {
+			n = 2
+			if i+1 < len(s) && s[i+1] == 'u' {
+				n = 6
+			}
+		}
+		if i+n > end {
+			return i
+		}
+		i += n
+	}
+	return i
 }
 
 func (p *MultilineAction) resetLogBuf() {
